@@ -266,7 +266,7 @@ func init() {
 		depth := r.Pick(2, 3)
 		queries, nDom, nS := c01Queries(depth, r.Pick(3, 4))
 		r.Bound = map[string]interface{}{"predicate_depth": depth, "domain_rows": nDom, "multiset_tables": nS, "queries": len(queries)}
-		r.Rule = "grammar-enumerated single-source queries (WHERE trees over 10 atoms, 7 projections, DISTINCT, 5 ORDER BY forms, LIMIT 0..3, FROM-subquery and WITH nestings) x tables (one table holding every row of the 48-row domain a x b x c plus duplicates; every multiset of <=3 (4) rows of a 6-row sub-domain), as CSV (Int columns) and JSON lines (Float columns), run through the real root command in-process (-o json) and compared with the reference evaluator; non-trivial = query whose reference result is non-empty and differs from the unfiltered input"
+		r.Rule = "grammar-enumerated single-source queries (WHERE trees over 10 atoms, 7 projections, DISTINCT, 5 ORDER BY forms, LIMIT 0..3, FROM-subquery and WITH nestings) x tables (one table holding every row of the 48-row domain a x b x c plus duplicates; every multiset of <=3 (4) rows of a 6-row sub-domain), as CSV (Int columns) and JSON lines (Float columns), run through the real root command in-process (-o json) and compared with the reference evaluator; COALESCE over nullable columns feeding strict operators; the top-level ORDER BY ... LIMIT queries over the small multiset tables are judged in -o batch_table as well (the table printer re-implements the cut); non-trivial = query whose reference result is non-empty and differs from the unfiltered input"
 		r.Assume("tie order under ORDER BY is unspecified; a tie group split by LIMIT may contribute any of its members", "LIMIT without ORDER BY may return any min(n,N) rows",
 			"queries octosql rejects at typecheck are counted, not judged", "CSV cannot distinguish NULL from the empty string: CSV tables hold no empty strings")
 		cache := newFPCache()
@@ -300,6 +300,37 @@ func init() {
 				cs := mkCase(q, sqlArgs(q.SQL(), "json", true))
 				cs.Got = RowsString(v.Got)
 				r.Sample(cs)
+			}
+		})
+		// the table printer (the default output of the CLI) re-implements ORDER BY + LIMIT: the top-level ORDER BY ... LIMIT
+		// queries over the small multiset tables (duplicate rows straddling the cut) are also judged in -o batch_table
+		var tableQs []*Query
+		for _, q := range queries {
+			if len(q.OrderBy) > 0 && q.Limit >= 1 && q.From.Table != nil && len(q.From.Table.Rows) <= 4 && q.Where == nil {
+				tableQs = append(tableQs, q)
+			}
+		}
+		if !r.Thorough() { // quick: every second one
+			half := tableQs[:0]
+			for i, q := range tableQs {
+				if i%2 == 0 {
+					half = append(half, q)
+				}
+			}
+			tableQs = half
+		}
+		r.Extra["batch_table_queries"] = len(tableQs)
+		enum.Parallel(len(tableQs), func(i int) {
+			q := tableQs[i]
+			v := c05Judge(pool, q, "batch_table")
+			r.Eval(1)
+			switch v.Class {
+			case "rejected", "ambiguous", "harness-unresolved":
+				return
+			}
+			r.Outcome("batch_table/" + orOK(v.Class))
+			if v.Class != "" {
+				reportMismatch(r, cache, "C01/batch_table", q, v, sqlArgs(q.SQL(), "batch_table", true), func(c *Query) verdict { return c05Judge(pool, c, "batch_table") })
 			}
 		})
 		if r.Rejected*2 > r.Evaluations {
